@@ -620,6 +620,49 @@ func genFormats() {
 	}
 }
 
+// annObjectCase: json.Marshal of a map[string]string against json_ann of the model, and the pairs a
+// token-wise decode of those bytes yields (document order) against read_obj of the model.
+func annObjectCase(m map[string]string) {
+	id := run.NewID()
+	js, err := json.Marshal(m)
+	obs := "ERR"
+	if err == nil {
+		dec := json.NewDecoder(strings.NewReader(string(js)))
+		var ps []string
+		tok, _ := dec.Token()
+		if d, ok := tok.(json.Delim); ok && d == '{' {
+			for dec.More() {
+				k, _ := dec.Token()
+				v, _ := dec.Token()
+				ps = append(ps, common.Hex(k.(string))+"="+common.Hex(v.(string)))
+			}
+		}
+		back := "-"
+		if len(ps) > 0 {
+			back = strings.Join(ps, ";")
+		}
+		obs = common.Hex(string(js)) + " " + back
+	}
+	run.Case(id, "A "+showAnn(m), obs)
+	run.Count("ann_object")
+}
+
+func genAnnObjects() {
+	r := run.Rand.Fork()
+	annObjectCase(map[string]string{})
+	annObjectCase(map[string]string{"": ""})
+	n := run.Scale(1500, 50000)
+	for i := 0; i < n; i++ {
+		m := map[string]string{}
+		k := r.Intn(5)
+		for j := 0; j < k; j++ {
+			key := pick(r, common.Pick(r, annKeys), common.Pick(r, annVals), "k\xff", "k\xfe", "a\"b", "z"+string([]byte{byte(r.Intn(256))}))
+			m[key] = pick(r, common.Pick(r, annVals), "v\xff\xfe", string([]byte{byte(r.Intn(256)), byte(r.Intn(256))}))
+		}
+		annObjectCase(m)
+	}
+}
+
 // digestCase: digest.FromBytes(..).String() against the modelled SHA-256.
 func digestCase(s string) {
 	id := run.NewID()
@@ -873,6 +916,15 @@ func main() {
 				packCase(&sp)
 			case "S":
 				digestCase(common.UnHex(c["hex"]))
+			case "A":
+				m := map[string]string{}
+				if c["ann"] != "-" {
+					for _, kv := range strings.Split(c["ann"], ";") {
+						p := strings.SplitN(kv, "=", 2)
+						m[common.UnHex(p[0])] = common.UnHex(p[1])
+					}
+				}
+				annObjectCase(m)
 			case "U", "J", "B":
 				utf8Case(common.UnHex(c["hex"]))
 			case "L":
@@ -893,6 +945,7 @@ func main() {
 	genTimes()
 	genFormats()
 	genDigests()
+	genAnnObjects()
 	genUTF8()
 	genMediaTypes()
 	floors()
@@ -906,7 +959,7 @@ func floors() {
 		"target_registry": 50, "target_oci+exists": 50, "target_file+exists": 50, "target_registry+exists": 50, "copy_checked": 300,
 		"determinism_checked": 300, "history_second_call": 300, "history_chained_call": 150, "idempotence_checked": 200, "registry_validating": 50, "file_named_blob": 50, "file_titled_config": 30, "file_titled_manifest": 10, "file_duplicate_name": 20, "enumerated_file_titles": 200, "prefilled": 300, "non_utf8_input": 50, "sha512_descriptor": 50, "config_empty_media_type": 10,
 		"enumerated": 1000, "enumerated_faults": 1000, "time_accepted": 1000, "parse_accepted": 1000, "parse_rejected": 1000, "time_rejected": 1000, "mediatype_valid": 1000,
-		"mediatype_invalid": 1000, "utf8_coerced": 500, "json_string": 1000, "format_valid": 1000, "sha256": 150, "format_invalid": 20, "base64": 1000, "utf8_unchanged": 100}
+		"mediatype_invalid": 1000, "utf8_coerced": 500, "json_string": 1000, "format_valid": 1000, "sha256": 150, "ann_object": 1000, "format_invalid": 20, "base64": 1000, "utf8_unchanged": 100}
 	var low []string
 	for k, n := range want {
 		if run.Dist[k] < n {
